@@ -19,6 +19,18 @@ func init() {
 				o.compactor = true
 			}
 			sc := genWrites(r, tier, idx, o)
+			if idx%16 == 7 {
+				// a commit whose outcome is unknown and that has landed: the retry loop repairs it, and the
+				// conditional writes that follow must see the key as it then is
+				sc.Class += "+unknown-outcome-repaired"
+				sc.Plan = append(sc.Plan, &simkv.Fault{Op: "commit", Class: "data", Who: "client", Nth: (idx/16)%6 + 1, Effect: "uncertain-applied"})
+				for i := range sc.Clients {
+					ops := sc.Clients[i].Ops
+					at := len(ops) / 2
+					sc.Clients[i].Ops = append(append(append([]world.Op{}, ops[:at]...), world.Op{K: "sleep", Ms: 7000}), ops[at:]...)
+				}
+				sc.Extra = map[string]int64{"keep_faults": 1}
+			}
 			if idx%16 == 6 {
 				// a slow engine under requests with a one-second deadline
 				sc.Class += "+slow-commit-and-deadlines"
